@@ -14,6 +14,9 @@
 //   "<id> fail stage=<save|parse1|compile1> msg=... xml=<hex>"  saved text does not load: property violated
 //   "<id> diff nfield=<k> fields=<f:count:first_index:a:b,...> maxdev=<x> xml=<hex>"
 //   "<id> ok arrays=<n> elems=<n> maxdev=<x> bytes=<len(x1)> idem=<0|1> sizes=<nbody,njnt,ngeom,...>"
+//   defaults                 -> "defaults <struct>.<attr>:<offset>:<kind>:<len>:<ndecl>:<unset>:<declared,..>:<actual,..>;..."
+//                            every entry of src/xml/generated/mjcf_default_table.inc next to the value found at that offset
+//                            in a freshly constructed spec object (what test/xml/schema_defaults_test.cc compares)
 // idem: saving spec1 again gives the same text as x1 (reported, not part of the property).
 #include <cmath>
 #include <cstdio>
@@ -26,6 +29,8 @@
 #include <mujoco/mjxmacro.h>
 #include "mjbuild.h"
 #include "xml/xml_numeric_format.h"
+#include <map>
+#include "xml/generated/mjcf_default_table.inc"
 
 static double g_tol = 0;
 static double g_maxdev = 0;
@@ -97,7 +102,7 @@ static void cmp(const char* name, const T* a, const T* b, long n) {
       } else {
         double dev = std::fabs(x - y) / (1 + std::fmax(std::fabs(x), std::fabs(y)));
         if (dev > g_maxdev) g_maxdev = dev;
-        same = g_tol > 0 ? dev <= g_tol : false;
+        same = g_tol > 0 ? dev <= g_tol : (x == y);   // exact mode: numeric equality (+0 == -0)
       }
     } else {
       same = false;
@@ -236,6 +241,54 @@ static void roundtrip(const char* id, mjSpec* s0, mjModel* m0, const mjVFS* vfs)
 
 static void quiet_warning(const char*) {}
 
+static void dump_defaults() {
+  mjSpec* spec = mj_makeSpec();
+  mjsBody* world = mjs_findBody(spec, "world");
+  mjsBody* body = mjs_addBody(world, nullptr);
+  std::map<std::string, const void*> objects = {
+      {"mjOption", &spec->option}, {"mjVisual", &spec->visual}, {"mjStatistic", &spec->stat}, {"mjSpec", spec},
+      {"mjLROpt", &spec->compiler.LRopt}, {"mjsCompiler", &spec->compiler}, {"mjsFlex", mjs_addFlex(spec)},
+      {"mjsHField", mjs_addHField(spec)}, {"mjsKey", mjs_addKey(spec)}, {"mjsNumeric", mjs_addNumeric(spec)},
+      {"mjsBody", body}, {"mjsFrame", mjs_addFrame(body, nullptr)}, {"mjsJoint", mjs_addJoint(body, nullptr)},
+      {"mjsGeom", mjs_addGeom(body, nullptr)}, {"mjsSite", mjs_addSite(body, nullptr)},
+      {"mjsCamera", mjs_addCamera(body, nullptr)}, {"mjsLight", mjs_addLight(body, nullptr)},
+      {"mjsPair", mjs_addPair(spec, nullptr)}, {"mjsEquality", mjs_addEquality(spec, nullptr)},
+      {"mjsTendon", mjs_addTendon(spec, nullptr)}, {"mjsActuator", mjs_addActuator(spec, nullptr)},
+      {"mjsSensor", mjs_addSensor(spec)}, {"mjsMesh", mjs_addMesh(spec, nullptr)}, {"mjsSkin", mjs_addSkin(spec)},
+      {"mjsMaterial", mjs_addMaterial(spec, nullptr)}, {"mjsTexture", mjs_addTexture(spec)},
+  };
+  printf("defaults ");
+  for (int t = 0; t < kDefaultTablesN; t++) {
+    const mjXDefaultTable& table = kDefaultTables[t];
+    auto it = objects.find(table.structname);
+    for (int i = 0; i < table.n; i++) {
+      const mjXDefaultEntry& e = table.entries[i];
+      printf("%s.%s:%d:%d:%d:%d:%d:", table.structname, e.attr, e.offset, e.kind, e.len, e.ndecl, e.unset);
+      for (int j = 0; j < e.len && j < 8; j++) printf("%s%.17g", j ? "," : "", e.value[j]);
+      printf(":");
+      if (it == objects.end()) {
+        printf("nofactory;");
+        continue;
+      }
+      const char* field = static_cast<const char*>(it->second) + e.offset;
+      for (int j = 0; j < e.len; j++) {
+        double a = 0;
+        switch (e.kind) {
+          case 0: a = reinterpret_cast<const double*>(field)[j]; break;
+          case 1: a = reinterpret_cast<const float*>(field)[j]; break;
+          case 2: a = reinterpret_cast<const int*>(field)[j]; break;
+          case 3: a = reinterpret_cast<const unsigned char*>(field)[j]; break;
+          case 4: a = reinterpret_cast<const mjtNum*>(field)[j]; break;
+        }
+        printf("%s%.17g", j ? "," : "", a);
+      }
+      printf(";");
+    }
+  }
+  printf("\n");
+  mj_deleteSpec(spec);
+}
+
 int main() {
   mju_user_warning = quiet_warning;
   static char line[1 << 24];
@@ -253,6 +306,8 @@ int main() {
       if (p < 1 || p > 17) { printf("bad-op\n"); continue; }
       mujoco::_mjPRIVATE__set_xml_precision(p);
       printf("ok prec %d\n", p);
+    } else if (!strcmp(op, "defaults")) {
+      dump_defaults();
     } else if (!strcmp(op, "tol")) {
       g_tol = strtod(line + off, nullptr);
       printf("ok tol %g\n", g_tol);
